@@ -538,7 +538,7 @@ class Ctx:
               "wall_s": round(time.time() - self.t0, 2), "violations": viol}
         # runs against a scratch copy of the repository (VERIF_REPO) must not overwrite the evidence
         # of the registered checks, which always comes from /repo itself
-        evdir = os.path.join(VERIF, "evidence") if REPO == "/repo" else os.environ.get(
+        evdir = os.path.join(VERIF, "evidence") if (REPO == "/repo" and not getattr(self, "dev_run", False)) else os.environ.get(
             "VERIF_ALT_EVIDENCE", "/var/tmp/verif-alt-evidence")
         os.makedirs(evdir, exist_ok=True)
         with open(os.path.join(evdir, "%s.json" % self.prop), "w") as fh:
